@@ -153,6 +153,15 @@ def tokenize (s : Str) : List Hash := tokenizeWith false false true s
 /-- `utils::tokenize_filter` -/
 def tokenizeFilter (s : Str) (skipFirst skipLast : Bool) : List Hash := tokenizeWith skipFirst skipLast true s
 
+/-- the parent domains of a host name: what follows each `.` (never empty) -/
+def labelTails : Str → List Str
+  | [] => []
+  | c :: rest => if c == '.' && !rest.isEmpty then rest :: labelTails rest else labelTails rest
+
+/-- `source_hostname_hashes`: the initiator host and every parent domain, hashed -/
+def srcHashesOf (srcHostname : Str) : Option (List Hash) :=
+  if srcHostname.isEmpty then none else some (fastHash srcHostname :: (labelTails srcHostname).map fastHash)
+
 /-- `Request::from_detailed_parameters` -/
 def mkRequest (rawType url schema hostname srcHostname : Str) (thirdParty : Bool) (original : Str) : Request :=
   let isHttp0 := schema == "http".toList
@@ -161,12 +170,7 @@ def mkRequest (rawType url schema hostname srcHostname : Str) (thirdParty : Bool
   let (isHttp, isHttps, isSupported, tyName) :=
     if schema.isEmpty then (false, true, true, cptMatchType rawType)
     else (isHttp0, isHttps0, isHttp0 || isHttps0 || isWs, if isWs then "Websocket" else cptMatchType rawType)
-  let srcHashes :=
-    if srcHostname.isEmpty then none else
-      let rec go : List Char → List Hash
-        | [] => []
-        | c :: rest => if c == '.' && !rest.isEmpty then fastHash rest :: go rest else go rest
-      some (fastHash srcHostname :: go srcHostname)
+  let srcHashes := srcHashesOf srcHostname
   let lower := asciiLower url
   { tyBit := typeBitOf tyName, tyName := tyName, isHttp, isHttps, isSupported, thirdParty,
     url, urlLower := lower, hostname, srcHashes,
